@@ -610,6 +610,6 @@ package lua
 // string.match always returns at least one value: nil when there is no match, else the whole match or the captures
 //@ ensures  "at-least-one-result": result >= 1 && top(L) == old(top(L)) + result
 //@ ensures  argsKept(L)
-//@ modifies L.reg.array, L.reg.top, L.reg.array[*]
+//@ modifies L.reg.array, L.reg.top, L.reg.array[*], type pm.MatchData.captures, elems(uint32), type pm.scanner.*, type pm.scannerState.*
 //@ loop 1 invariant Inv_gfn(L) && L.reg == old(L.reg) && argsKept(L) && i >= 2 && i % 2 == 0 && i <= len(md.captures) && len(md.captures) % 2 == 0 && len(md.captures) >= 4 && md != nil && Inv_md(md) && top(L) == old(top(L)) + (i - 2) / 2 && cap(L.reg.array) >= old(cap(L.reg.array)) && arrSameOrFresh(L.reg) && len(str) == len(str(arg(L, 1)))
 //@ loop 1 invariant forall k int :: 0 <= k && k + 1 < len(md.captures) && k % 2 == 0 && md.captures[k] % 2 == 0 ==> md.captures[k] / 2 <= md.captures[k+1] / 2 && md.captures[k+1] / 2 <= len(str)
